@@ -434,6 +434,10 @@ func writeComputedFieldExpression(w *formatting.IndentedWriter, expression dsl.E
 					// ** is right-associative in Python
 					requiresParentheses = true
 				}
+				if _, ok := t.Left.(*dsl.UnaryExpression); ok && t.Operator == dsl.BinaryOpPow {
+					// ** binds more tightly than a unary minus on its left in Python
+					requiresParentheses = true
+				}
 
 				if requiresParentheses {
 					w.WriteString("(")
